@@ -250,8 +250,11 @@ def apply_event(P, sc, ev, n, depth_left, rename=None):
 PSTYLES = ["int {n}", "int a0, int {n}", "void *, int {n}", "int {n}, ...", "int (*cb)(int {n}_unused), int {n}", "int {n}, char *",
            # a parenthesised typedef name in a parameter declarator is a parameter list (6.7.5.3p11) whatever precedes the '(':
            # W stays a type in the body (probed there)
-           "int *(W), int {n}", "int (*(W)), int {n}", "int * const (W), int {n}", "int (W), int {n}, int (*(*)(W))"]
+           "int *(W), int {n}", "int (*(W)), int {n}", "int * const (W), int {n}", "int (W), int {n}, int (*(*)(W))",
+           # ... but after a '*' the parenthesis cannot open a parameter list: the name is the parameter's name
+           "int (*{n})(int)", "int (*{n}), int (*const q9)(int (*{n}))", "int ((*{n})), char *"]
 W_STYLES = (6, 7, 8, 9)
+PTR_STYLES = (10, 11, 12)   # the parameter is a pointer (to function / to int): probes must not use it in arithmetic
 
 
 def build_program(u_kind, events, param=None, kr=False, nested=False, renames=None, pstyle=0):
@@ -289,6 +292,8 @@ def build_program(u_kind, events, param=None, kr=False, nested=False, renames=No
         P.lines.append(f"int (*f(int {pn}))(int) {{")
     elif param:
         P.lines.append("void f(" + PSTYLES[pstyle].format(n=pn) + ") {")
+        if pstyle in PTR_STYLES:
+            P.novalidate = True   # the probes use the name in integer arithmetic: syntactically fine, not type-correct for a pointer
         if pstyle in (2, 5):
             P.std = "c2x"  # an unnamed parameter in a definition is a C99 constraint violation (valid syntax, valid C23)
     else:
